@@ -1032,6 +1032,8 @@ def literal_value(node: ast.AST) -> bool:
             isinstance(node.func, ast.Name)
             and node.func.id in constants.SAFE_CALLABLES
             and not node.keywords  # Keyword arguments are not evaluated
+            # The value of these depends on where and when they are evaluated
+            and node.func.id not in ("dir", "vars", "id", "hash", "super")
         ):
             args = [literal_value(arg) for arg in node.args]
             value = getattr(builtins, node.func.id)(*args)
